@@ -85,6 +85,12 @@ func yamlScalar(v any) string {
 	switch x := v.(type) {
 	case string:
 		return yq(x)
+	case float64:
+		// case parameters travel as JSON: integral numbers are integers
+		if x == math.Trunc(x) && math.Abs(x) < 1e15 {
+			return fmt.Sprintf("%d", int64(x))
+		}
+		return fmt.Sprint(x)
 	default:
 		return fmt.Sprint(x)
 	}
